@@ -15,7 +15,8 @@ PROP = {
     "tags": {"1": "group: delivered, flat members", "2": "group: a member never completes, nothing delivered", "3": "group with a nested group",
              "10-13": "gated hook: 10+2*frontend+mode (frontend 0 UDP / 1 HTTP; mode 0 pre-hook gated, 1 post-response hook gated)",
              "20/21": "NewFrontend;Stop race UDP/HTTP", "30/31": "requests then Stop, goroutines UDP/HTTP", "40-43": "reload history with 0/1/2/3+ reloads",
-             "50/51": "Stop(everything) with a pending post-response hook, UDP/HTTP"},
+             "50/51": "Stop(everything) with a pending post-response hook, UDP/HTTP",
+             "60-62": "middleware.Logic.Stop: no JWT hook / JWT refresh idle / JWT refresh inside a fetch that never completes"},
     "trivial_tags": [], "min_tags": 10,
     "reasons": {"1": "Stop's result was delivered while a post-response hook (AfterAnnounce/AfterScrape) of an accepted request was still in flight",
                 "2": "after Stop completed the listener was still open (the port accepted a connection / was still bound)",
